@@ -89,12 +89,32 @@ template <typename T> struct GEN<booster::copy_ptr<T> > { static void f(rng &r, 
 template <typename T> struct GEN<std::unique_ptr<T> > { static void f(rng &r, std::unique_ptr<T> &v) { gen_ptr<std::unique_ptr<T>, T>(r, v); } };
 template <> struct GEN<point> { static void f(rng &r, point &v) { gen(r, v.x); gen(r, v.y); gen(r, v.label); } };
 template <> struct GEN<person> { static void f(rng &r, person &v) { g_depth++; gen(r, v.name); gen(r, v.age); gen(r, v.tags); gen(r, v.scores); gen(r, v.child); gen(r, v.where); gen(r, v.path); gen(r, v.flag); g_depth--; } };
+// JSON values travel through archives as JSON text, which the writer prints with 16 significant digits: a number that needs 17 does
+// not come back equal (known finding). To keep every other difference visible the comparison is repeated against the original with
+// such numbers replaced by what their 16-digit text reads back as.
+static bool g_json17 = false;
+static double as16(double d) { char b[40]; snprintf(b, sizeof b, "%.16g", d); return strtod(b, 0); }
+static void round16(cppcms::json::value &v)
+{
+	if (v.type() == cppcms::json::is_number) v.number(as16(v.number()));
+	else if (v.type() == cppcms::json::is_array) for (auto &e : v.array()) round16(e);
+	else if (v.type() == cppcms::json::is_object) for (auto &e : v.object()) round16(e.second);
+}
+template <typename T> static void round16(T &) {}
+static void round16(std::vector<cppcms::json::value> &v) { for (auto &e : v) round16(e); }
 static void gen_json(rng &r, cppcms::json::value &v, int depth)
 {
 	switch (r.below(depth > 3 ? 5 : 7)) {
 	case 0: v = cppcms::json::null(); break;
 	case 1: v = r.chance(1, 2); break;
-	case 2: v = (double)r.range(-100000, 100000) / (r.chance(1, 2) ? 1 : 8); break;
+	case 2:
+		if (r.chance(1, 3)) {   // any finite double: the archive carries JSON text, which has to identify the number exactly
+			double d; do { uint64_t b = r.next(); memcpy(&d, &b, 8); } while (!(d - d == 0));
+			if (r.chance(1, 3)) d = (double)r.range(-1000, 1000) + (double)r.range(0, 1 << 20) / (1 << 20) * 0.1;
+			v = d; O().count("json_values_with_arbitrary_doubles"); if (as16(d) != d) { g_json17 = true; O().count("json_numbers_needing_17_digits"); }
+		}
+		else v = (double)r.range(-100000, 100000) / (r.chance(1, 2) ? 1 : 8);
+		break;
 	case 3: { std::string s; int n = r.below(10); for (int i = 0; i < n; i++) s += (char)(r.chance(1, 6) ? r.range(1, 31) : r.range(32, 126)); if (r.chance(1, 4)) s += "\xc3\xa9\xe2\x82\xac"; v = s; break; }
 	case 4: v = std::string(); break;
 	case 5: { v = cppcms::json::array(); int n = r.below(4); for (int i = 0; i < n; i++) { cppcms::json::value e; gen_json(r, e, depth + 1); v.array().push_back(e); } break; }
@@ -162,19 +182,23 @@ template <typename T> struct type_impl : public type_base {
 	char const *name() const { return nm; }
 	std::string make(rng &r, std::vector<size_t> &headers) {
 		g_type = nm;
+		g_json17 = false;
 		gen(r, kept);
 		cppcms::archive a;
 		a << kept;
 		std::string bytes = a.str();
+		constexpr bool is_json = std::is_same<T, cppcms::json::value>::value || std::is_same<T, std::vector<cppcms::json::value> >::value;
+		// what a JSON value is expected to come back as when some of its numbers need 17 digits (see round16)
+		auto same_but_16_digits = [&](T const &got) { if constexpr (is_json) { if (!g_json17) return false; T k2 = kept; round16(k2); return eq(got, k2); } else return false; };
 		// (1) cppcms round trip via operator>>, operator& and serialization_traits
 		{
 			T back = T();
 			cppcms::archive b; b.str(bytes);
-			try { b >> back; if (!eq(back, kept)) viol("roundtrip:value-differs", bytes); if (!b.eof()) viol("roundtrip:bytes-left-over", bytes); }
+			try { b >> back; if (!eq(back, kept)) viol(same_but_16_digits(back) ? "roundtrip:json-number-that-needs-17-digits-differs" : "roundtrip:value-differs", bytes); if (!b.eof()) viol("roundtrip:bytes-left-over", bytes); }
 			catch (std::exception const &e) { viol("roundtrip:valid-archive-rejected", bytes, e.what()); }
 			T back2 = T();
 			cppcms::archive c; c.str(bytes); c.mode(cppcms::archive::load_from_archive);
-			try { c & back2; if (!eq(back2, kept)) viol("roundtrip:value-differs-amp", bytes); } catch (std::exception const &e) { viol("roundtrip:valid-archive-rejected-amp", bytes, e.what()); }
+			try { c & back2; if (!eq(back2, kept) && !same_but_16_digits(back2)) viol("roundtrip:value-differs-amp", bytes); } catch (std::exception const &e) { viol("roundtrip:valid-archive-rejected-amp", bytes, e.what()); }
 			if constexpr (std::is_base_of<cppcms::serializable_base, T>::value) {
 				std::string ser; cppcms::serialization_traits<T>::save(kept, ser);
 				T back3 = T(); cppcms::serialization_traits<T>::load(ser, back3);
@@ -185,7 +209,7 @@ template <typename T> struct type_impl : public type_base {
 		// (2) the shadow reader understands the same bytes (validates the oracle itself)
 		{
 			T sv = T(); reader rd(bytes);
-			if (!shread(rd, sv) || rd.pos != bytes.size() || !eq(sv, kept)) O().viol(std::string("harness:shadow-reader-disagrees-on-valid-archive:") + nm, hex(bytes));
+			if (!shread(rd, sv) || rd.pos != bytes.size() || (!eq(sv, kept) && !same_but_16_digits(sv))) O().viol(std::string("harness:shadow-reader-disagrees-on-valid-archive:") + nm, hex(bytes));
 			headers = rd.headers;
 		}
 		O().count("roundtrips");
